@@ -33,8 +33,8 @@ type fcase struct {
 	Version     string   `json:"version"`
 	Blinded     bool     `json:"blinded"`
 	OtherSlot   bool     `json:"proposal_for_other_slot,omitempty"`
-	Graffiti    string   `json:"graffiti"` // ok | error | absent
-	Auction     string   `json:"auction"`  // none | error | no-winner | winner
+	Graffiti    string   `json:"graffiti"`                   // ok | error | absent
+	Auction     string   `json:"auction"`                    // none | error | no-winner | winner
 	Relays      []string `json:"relay_unblinding,omitempty"` // block | 400 | transient | error | slow | hang
 	Listed      []int    `json:"relays_listed_for_unblinding,omitempty"`
 	SubmitErr   bool     `json:"submit_error,omitempty"`
@@ -47,6 +47,7 @@ type world struct {
 	mu         sync.Mutex
 	fc         *fcase
 	acct       harness.Acct
+	acct2      harness.Acct // a second validator proposing in the same epoch
 	real       *signerstd.Service
 	randaoReqs []string
 	blockReqs  []blockReq
@@ -56,7 +57,7 @@ type world struct {
 	submitted  []*api.VersionedSignedProposal
 	relays     []*harness.Relay
 	returned   map[*api.VersionedSignedProposal]int // full block -> relay that returned it
-	goodReq    map[int]bool                          // relay got a request carrying exactly the signed blinded block
+	goodReq    map[int]bool                         // relay got a request carrying exactly the signed blinded block
 	badReq     []string
 	dutySlot   phase0.Slot
 	index      phase0.ValidatorIndex
@@ -64,12 +65,12 @@ type world struct {
 }
 
 type blockReq struct {
-	account              string
-	slot                 phase0.Slot
-	index                phase0.ValidatorIndex
-	parent, state, body  phase0.Root
-	sig                  phase0.BLSSignature
-	err                  error
+	account             string
+	slot                phase0.Slot
+	index               phase0.ValidatorIndex
+	parent, state, body phase0.Root
+	sig                 phase0.BLSSignature
+	err                 error
 }
 
 // ---- fakes ----
@@ -82,6 +83,9 @@ func (w *world) ValidatingAccountsForEpochByIndex(_ context.Context, _ phase0.Ep
 	for _, i := range idx {
 		if i == w.index {
 			out[i] = w.acct
+		}
+		if w.acct2 != nil && i == w.index+1 {
+			out[i] = w.acct2
 		}
 	}
 	return out, nil
@@ -199,7 +203,6 @@ func signedBlindedRoot(p *api.VersionedSignedBlindedProposal) (phase0.Root, phas
 	}
 	return phase0.Root{}, phase0.BLSSignature{}, false
 }
-
 
 // signedRootSig returns the message root and signature of a signed (full) proposal.
 func signedRootSig(p *api.VersionedSignedProposal) (phase0.Root, phase0.BLSSignature, error) {
@@ -384,6 +387,20 @@ func runCase(c *harness.Ctx, id string, fc *fcase, uniq int) {
 	if !harness.VerifySig(w.acct, rroot[:], duty.RANDAOReveal()) {
 		fail("randao-reveal-invalid", "the RANDAO reveal attached to the duty does not verify for the duty's epoch and account")
 	}
+	// a second validator with a duty in the same epoch, prepared on the same service
+	w.acct2 = harness.NewAcct(fc.AccountKind, "W", "proposer2", 806+uniq%3, w.index+1, nil)
+	slot2 := phase0.Slot(uint64(w.dutySlot)/spe*spe + uint64(uniq+3)%spe)
+	duty2 := beaconblockproposer.NewDuty(slot2, w.index+1)
+	if err := svc.Prepare(ctx, duty2); err != nil {
+		fail("prepare-error", "Prepare of a second validator failed: "+err.Error())
+	} else {
+		if len(w.randaoReqs) != 2 || w.randaoReqs[1] != fmt.Sprintf("proposer2@%d", slot2) {
+			fail("randao-requests-wrong:second-validator", fmt.Sprintf("RANDAO reveal requests %v after preparing a second validator's duty, want one more for that validator and slot", w.randaoReqs))
+		}
+		if !harness.VerifySig(w.acct2, rroot[:], duty2.RANDAOReveal()) {
+			fail("randao-reveal-invalid:second-validator", "the RANDAO reveal attached to a second validator's duty in the same epoch does not verify under that validator's key")
+		}
+	}
 	pctx, cancel := context.WithCancel(ctx)
 	defer cancel()
 	done := make(chan struct{})
@@ -562,7 +579,7 @@ func runCase(c *harness.Ctx, id string, fc *fcase, uniq int) {
 
 func run(c *harness.Ctx) {
 	harness.InitBLS()
-	for i := 0; i < 6; i++ {
+	for i := 0; i < 10; i++ {
 		harness.Keys.Key(800 + i)
 	}
 	n := c.N(1500, 40000)
@@ -592,14 +609,14 @@ var _ builderclient.UnblindedProposalProvider = (*harness.Relay)(nil)
 
 func main() {
 	harness.Main(&harness.Spec{
-		Property: "C05",
-		Level:    "exploration",
-		Rule:     "proposal duties over versions phase0..deneb x full/blinded x {proposal for the duty slot, for another slot} x graffiti {ok, error, no provider} x auction {no auctioneer, error, result without winner, winner with a random listed subset} x per-relay unblinding {block, 400, transient error then block, error, slow, hang} x {submission error, block signing error, unblind-from-all}; Prepare then Propose on the real proposer with the real signer. distinct = the whole assignment",
-		Batches:  func(string) int { return 2 },
-		Parallel: 2,
-		Run:      run,
-		MinDistinct: 150,
+		Property:     "C05",
+		Level:        "exploration",
+		Rule:         "proposal duties over versions phase0..deneb x full/blinded x {proposal for the duty slot, for another slot} x graffiti {ok, error, no provider} x auction {no auctioneer, error, result without winner, winner with a random listed subset} x per-relay unblinding {block, 400, transient error then block, error, slow, hang} x {submission error, block signing error, unblind-from-all}; Prepare then Propose on the real proposer with the real signer. distinct = the whole assignment",
+		Batches:      func(string) int { return 2 },
+		Parallel:     2,
+		Run:          run,
+		MinDistinct:  150,
 		ChildTimeout: func(string) time.Duration { return 40 * time.Minute },
-		Assumptions: []string{"when no relay returns a full block Propose waits on its context (reported under C20); the driver cancels it after 2.5 s and requires it to return then", "BodyRoot/Root of blocks are computed with the client library; header signing root with the reference merkleisation"},
+		Assumptions:  []string{"when no relay returns a full block Propose waits on its context (reported under C20); the driver cancels it after 2.5 s and requires it to return then", "BodyRoot/Root of blocks are computed with the client library; header signing root with the reference merkleisation"},
 	})
 }
